@@ -12,7 +12,7 @@ import (
 // deviation) and an optional fault.
 type Script struct {
 	Src       string // "zero" | "ff" | "counter" | "seeded:<n>" | "hex:<bytes>" (repeated)
-	Mode      string // "full" | "1" (one byte per call) | "split:<j>" (first call j bytes) | "eof:<L>" (finite stream of L bytes, last chunk delivered together with io.EOF) | "chunks:<k>"
+	Mode      string // "stall:<k>:<j>" (after j bytes, k calls return (0, nil)) | "full" | "1" (one byte per call) | "split:<j>" (first call j bytes) | "eof:<L>" (finite stream of L bytes, last chunk delivered together with io.EOF) | "chunks:<k>"
 	FailAfter int    // -1: never; j >= 0: after j bytes have been delivered every further Read fails
 	FailWith  bool   // deliver the bytes that are still available together with the error
 	FailErr   string // "" = ErrScripted | "eof" = io.EOF | "unexpected-eof" = io.ErrUnexpectedEOF
@@ -50,6 +50,7 @@ type Reader struct {
 	Calls    int
 	rng      *rand.Rand
 	hex      []byte
+	stalled  int
 }
 
 func (s Script) New() *Reader {
@@ -88,7 +89,7 @@ func (r *Reader) Read(p []byte) (int, error) {
 	}
 	want := len(p)
 	var mode string
-	var arg int
+	var arg, stallK int
 	fmt.Sscanf(r.s.Mode, "split:%d", &arg)
 	if arg > 0 {
 		mode = "split"
@@ -96,6 +97,8 @@ func (r *Reader) Read(p []byte) (int, error) {
 		mode = "eof"
 	} else if _, err := fmt.Sscanf(r.s.Mode, "chunks:%d", &arg); err == nil {
 		mode = "chunks"
+	} else if _, err := fmt.Sscanf(r.s.Mode, "stall:%d:%d", &stallK, &arg); err == nil {
+		mode = "stall"
 	} else {
 		mode = r.s.Mode
 	}
@@ -109,6 +112,16 @@ func (r *Reader) Read(p []byte) (int, error) {
 	case "chunks":
 		if arg > 0 && arg < want {
 			want = arg
+		}
+	case "stall":
+		// "stall:<k>:<j>": j bytes are delivered, then k calls return (0, nil) - allowed by io.Reader, discouraged, and
+		// completed by io.ReadFull - then the stream goes on
+		if r.pos < arg && r.pos+want > arg {
+			want = arg - r.pos
+		}
+		if r.pos == arg && r.stalled < stallK {
+			r.stalled++
+			return 0, nil
 		}
 	case "eof":
 		if r.pos >= arg {
@@ -156,7 +169,7 @@ func (s Script) Bytes(n int) []byte {
 
 // DeliveryModes are the non-faulting deviations from the default answer for a 32-byte request.
 func DeliveryModes() []string {
-	m := []string{"full", "1", "eof:32", "chunks:5", "chunks:16"}
+	m := []string{"full", "1", "eof:32", "chunks:5", "chunks:16", "stall:1:0", "stall:3:16", "stall:60:5", "stall:99:31"}
 	for j := 1; j < 32; j++ {
 		m = append(m, fmt.Sprintf("split:%d", j))
 	}
